@@ -61,6 +61,36 @@ def lowp_problem(got, exp, w0, comm, communicate_params):
     return None
 
 
+def dump_state_summary(opt, params, outfile):
+    """Which blocks hold non-empty Kronecker state on this rank (real DTensor state): written next to the rank's output."""
+    owned = []
+    for pi, p in enumerate(params):
+        for bname, bs in opt.state[p].items():
+            if not isinstance(bs, dict):
+                continue
+            sh = bs.get("shampoo")
+            mats = list(getattr(sh, "factor_matrices", ())) if sh is not None else []
+            owned.append([pi, str(bname), any(type(t).__name__ == "DTensor" and t.to_local().numel() > 0 for t in mats), len(mats)])
+    json.dump(owned, open(outfile + ".state", "w"))
+
+
+def placement_problems(d, groups):
+    """Exactly one rank of every distribution group holds each block's state."""
+    probs = []
+    st = {}
+    for members in groups:
+        for r in members:
+            f = os.path.join(d, f"out{r}.json.state")
+            if r not in st:
+                st[r] = json.load(open(f)) if os.path.exists(f) else []
+        keys = sorted({(x[0], x[1]) for r in members for x in st[r] if x[3] > 0})
+        for pi, bname in keys:
+            owners = [r for r in members if any(x[0] == pi and x[1] == bname and x[2] for x in st[r])]
+            if len(owners) != 1:
+                probs.append(f"state of param {pi} {bname} lives on ranks {owners} of group {list(members)}")
+    return probs
+
+
 def _build(cfg, vals, distributed_config=None, given_params=None):
     import torch
     from distributed_shampoo.distributed_shampoo import DistributedShampoo
@@ -130,6 +160,7 @@ def worker(rank, world, cfgfile, initfile, outfile):
             p.grad = g
         opt.step()
     json.dump([p.detach().tolist() for p in params], open(outfile, "w"))
+    dump_state_summary(opt, params, outfile)
     dist.destroy_process_group()
 
 
@@ -179,6 +210,9 @@ def replay(record):
             which = [r for r, rc in enumerate(rcs) if rc != 0]
             problems.append(f"attempt {att + 1}: ranks {which} did not finish (hang/timeout or error in a collective): {[e.strip().splitlines()[-1] if e.strip() else '' for e in errs][:world]}")
         else:
+            if kind == "state-placement":
+                G = cfg["group"]
+                problems += [f"attempt {att + 1}: {x}" for x in placement_problems(d, [list(range(g0, g0 + G)) for g0 in range(0, world, G)])]
             low = cfg.get("comm", "FP32") in ("BF16", "FP16")
             outs = [json.load(open(os.path.join(d, f"out{r}.json"))) for r in range(world)]
             for r in range(world):
